@@ -23,7 +23,11 @@ from harness.common.isolated import run_many
 
 PID = "C18"
 LEVEL = "proof"
+EXTRA_PROP_FILES = ["C18b"]  # matrix route = stencil route on the array the ghost-cell setter (BC.setGhostAll) produces
 REQUIRED_THEOREMS = [
+    "ghostValue_eq_bcData", "cart1_matrix_eq_laplace_after_setter", "polar_matrix_eq_laplace_after_setter",
+    "polar_disk_matrix_eq_laplace_after_setter", "sph_matrix_eq_laplace_after_setter", "sph_ball_matrix_eq_laplace_after_setter",
+    "cart2_matrix_eq_laplace_after_setter", "cyl_matrix_eq_laplace_after_setter", "cart3_matrix_eq_laplace_after_setter",
     "rowEntry_add_only", "matvec_set_first", "axisOps_apply", "bcData_ghost", "bcData_entries_lt", "axisOps_adds",
     "cart1_row_apply", "cart2_row_apply", "cart3_row_apply", "cyl_row_apply",
     # rows = stencil of C01 on the ghost-extended array, every class, also r_min = 0 (all rows)
